@@ -81,15 +81,11 @@ func (e *Exec) intrinsic(fn *ssa.Function, name string, args []Value) (Value, bo
 			return mkFloat(math.Pow(x.C, y.C)), true
 		}
 		if x.IsC && x.C == 2 && y.FromInt != nil {
-			n := iConv(*y.FromInt, 64, true)
-			in := bAnd(iCmp(">=", n, mkI64(-1022)), iCmp("<=", n, mkI64(1023)))
-			if !e.provable(in) {
-				e.unsupported("math.Pow(2, k): cannot show -1022 <= k <= 1023")
-			}
-			e.stubs["math.Pow(2,k) for integer-valued k in -1022..1023: exact 2^k (validated against math.Ldexp at start-up)"] = true
-			ex := fmt.Sprintf("((_ extract 10 0) (bvadd %s #x00000000000003ff))", n.T())
-			nn := n
-			return e.nmF(Float{Sym: "(fp #b0 " + ex + " #b" + strings.Repeat("0", 52) + ")", Pow2Of: &nn}), true
+			// zoom levels are case-split: the (integer) exponent is concretised by forking over
+			// its feasible values, then the real math.Pow is evaluated
+			n := e.concretize(iConv(*y.FromInt, 64, true), "exponent of math.Pow(2,k)", 80)
+			e.stubs["math.Pow(2,k) with symbolic integer k: k is case-split over its feasible values (<= 80) and the real function evaluated"] = true
+			return mkFloat(math.Pow(2, float64(n.sval()))), true
 		}
 		e.stubs["math.Pow (general): uninterpreted function"] = true
 		e.uf("uf_pow", 2)
@@ -257,7 +253,7 @@ func (e *Exec) intrinsic(fn *ssa.Function, name string, args []Value) (Value, bo
 		for i, p := range parts {
 			el[i] = p
 		}
-		return Slice{Arr: e.newObj(Array{el}, "strings.Split"), Len: len(el), Cap: len(el)}, true
+		return Slice{Arr: e.newObj(Array{E: el}, "strings.Split"), Len: len(el), Cap: len(el)}, true
 	case "strings.Join":
 		sl := args[0].(Slice)
 		sep := args[1].(Str)
@@ -369,13 +365,15 @@ func (e *Exec) parseInt(s Str) (Value, Value) {
 	case pTok:
 		t := p.Tok
 		ok := symBool(fmt.Sprintf("(and tok%d_isint (not tok%d_ovf))", t, t))
-		if e.decide(ok) {
-			return symInt(64, true, fmt.Sprintf("tok%d_val", t)), Iface{}
+		// no fork here: the error is nil exactly when the token is an in-range integer; the value is
+		// the parsed number, the clamped bound on a range error, 0 on a syntax error
+		if !e.tokOvfAx[t] {
+			e.tokOvfAx[t] = true
+			e.sol.Send(fmt.Sprintf("(assert (=> tok%d_ovf (or (= tok%d_val #x7fffffffffffffff) (= tok%d_val #x8000000000000000))))", t, t, t))
 		}
-		// error: value is 0 for syntax errors, the clamped bound for range errors
-		ovf := symBool(fmt.Sprintf("tok%d_ovf", t))
-		e.assert(symBool(fmt.Sprintf("(=> tok%d_ovf (or (= tok%d_val #x7fffffffffffffff) (= tok%d_val #x8000000000000000)))", t, t, t)))
-		return e.nmI(iIte(ovf, symInt(64, true, fmt.Sprintf("tok%d_val", t)), mkI64(0))), e.newErr()
+		val := e.nmI(iIte(symBool(fmt.Sprintf("tok%d_isint", t)), symInt(64, true, fmt.Sprintf("tok%d_val", t)), mkI64(0)))
+		e.objCtr++
+		return val, Iface{T: symErrType, V: SymErr{id: e.objCtr}, MaybeNil: &ok}
 	case pDigit:
 		return iConv(p.I, 64, true), Iface{}
 	}
@@ -539,15 +537,16 @@ func (e *Exec) harnessPrim(name string, args []Value) (Value, bool) {
 		e.addInput(in)
 		return Str{P: ps}, true
 	case "vAssume":
+		e.assumeN++
 		c := args[0].(Bool)
 		if c.IsC {
 			if !c.C {
-				panic(pathEnd{"assume-dead", "assumption false"})
+				panic(pathEnd{"assume-dead", fmt.Sprintf("assumption #%d false", e.assumeN)})
 			}
 			return nil, true
 		}
 		if e.pos >= len(e.prefix) && e.check(c.Sym) == RUnsat {
-			panic(pathEnd{"assume-dead", "assumption infeasible"})
+			panic(pathEnd{"assume-dead", fmt.Sprintf("assumption #%d infeasible", e.assumeN)})
 		}
 		e.assert(c)
 		return nil, true
